@@ -10,7 +10,7 @@ TEXT = {
              BUB + "For a slow consumer the window bound is widened by the capacity of the output channel (sound, see DESIGN 4/C04). Interleavings at one virtual instant are sampled.",
              "property-based testing (rapid) of generated timing scripts on a synctest fake clock; exact-time inequality oracle", "4/C04"),
     "C12": T("Same scripts; oracle = sequence equality, closure, and the four 'no extra throttling' inequalities (no pause below Quantity, up-front data by floor(i/Q)*I, d_i <= max(avail_i, d_{i-Q}+I), closure within one Interval).",
-             BUB + "Timing clauses only asserted for an always-ready consumer.",
+             BUB + "Timing clauses asserted for an always-ready consumer and, with all data up-front, for a steady consumer faster than the limit (fixed pause d per element, Q*d <= I).",
              "property-based testing (rapid) on a synctest fake clock; reference-sequence and timing-bound oracle", "4/C12"),
     "C13": T("Full-range generated (Interval, Quantity, minimum) triples with boundary construction around floor(I/Q)==minimum and products near 2^64, checked against an exact math/big oracle of the statement; thorough adds a coverage-guided native fuzz campaign on the same oracle.",
              "Trusted: math/big, rapid, the Go fuzzer. The fuzz campaign is not reproducible from the seed; its failing input is.",
@@ -42,7 +42,7 @@ TEXT.update({
              "stateful property-based testing (rapid scripts) with owned schedule (synctest); invariant after every step", "4/C01"),
     "C02": T("Items are (registration priority, channel generation, sequence number); tags, per-channel order, duplicates, inventions and, at normal termination, losses are compared exactly.",
              BUB, "stateful property-based testing (rapid scripts) with owned schedule; identity-tracking oracle", "4/C02"),
-    "C05": T("Saturation scripts (all data sits in the channels) with arbitrary release orders/groupings: per-priority in-flight never exceeds divider(all priorities, H) and equals it at every quiescent point with no release outstanding.",
+    "C05": T("Saturation scripts (all data sits in the channels, or - v1, unbuffered output, one receive per quiescent interval - small buffers kept full by blocked producers; v1 channel replacement by AddInput) with arbitrary release orders/groupings: per-priority in-flight never exceeds divider(all priorities, H) and equals it at every quiescent point with no release outstanding.",
              BUB, "stateful property-based testing (rapid scripts) with owned schedule; share-model oracle", "4/C05"),
     "C06": T("Bounded liveness on the owned clock: at quiescence with nothing in flight and data waiting something must have been delivered; a lone active priority gets all handlers; one-at-a-time release delivers everything. Two genuine defects (F4, F5) are recorded as known findings and excluded by class.",
              BUB + "Unbounded 'eventually' is not decidable by testing; quiescence = two settle quanta without output.",
@@ -59,10 +59,10 @@ TEXT.update({
              BUB, "stateful property-based testing (rapid scripts) with owned schedule; read-counter and identity oracle", "4/C17"),
 })
 TEXT.update({
-    "C19": T("After every kind of termination generated by the three labs (normal, graceful, Stop, cancel at arbitrary points, divider fault; all disciplines of both versions, handler goroutines of the simplified ones) the goroutine dump must contain no goroutine created by the module.",
+    "C19": T("After every kind of termination generated by the three labs (normal, graceful, Stop, cancel at arbitrary points, divider fault; all disciplines of both versions, handler goroutines of the simplified ones) the goroutine dump, taken at the first quiescent point after termination is observed and again at the end of the run, must contain no goroutine created by the module.",
              BUB + "Leak = goroutine whose 'created by' frame is in github.com/akramarenkov/cqos.",
              "property-based testing (rapid scripts) with a goroutine-dump oracle after generated termination paths", "4/C19"),
-    "C20": T("Free-running real-time generated scenarios (producers, handlers, control calls, slice-keeping consumers, jitter) for every discipline plus the bubble scripts of the three labs, all built with -race; a race report is a violation, confirmed by re-running the script.",
+    "C20": T("Free-running real-time generated scenarios (producers, handlers, control calls, slice-keeping consumers, jitter) for every discipline, the bubble scripts of the three labs and concurrent calls of the pure functions (also compared with their sequential results), all built with -race; a race report is a violation, confirmed by re-running the script.",
              "Trusted: the Go race detector. Only executed interleavings are examined; real-time schedules are not reproducible from the seed.",
              "randomised concurrency stress under the race detector, scenarios generated by rapid", "4/C20"),
 })
